@@ -102,6 +102,7 @@ func getSwapInSenderStates() States {
 			Events: Events{
 				Event_OnCsvPassed:         State_SwapInSender_ClaimSwapCsv,
 				Event_OnCoopCloseReceived: State_SwapInSender_ClaimSwapCoop,
+				Event_OnClaimInvoicePaid:  State_ClaimedPreimage,
 			},
 		},
 		State_SendCancel: {
